@@ -74,6 +74,7 @@ class FamilyResult:
         self.model_error = None
         self.viol = {}            # trace index -> list of (prop, line, rule, msg)
         self.corpus_n = 0
+        self.linecov = {}         # library file -> statements / executed / percent (quick tier)
 
 def run_family(family, tier, seed):
     quiet()
@@ -85,7 +86,31 @@ def run_family(family, tier, seed):
         except Exception as e: lines = ["err " + type(e).__name__ + " |"]
         r.traces.append((h, ops, lines))
     r.corpus_n = len(corp)
-    gen, st = generate(family, tier, seed)
+    # line coverage of the library files this family exercises (single-process runs only; measured, reported in the evidence)
+    covm = None
+    if BUDGET[tier][family] <= 3000 and os.environ.get("VERIF_NO_LINECOV") != "1":
+        try:
+            import coverage
+            os.environ.setdefault("COVERAGE_CORE", "sysmon")
+            covm = coverage.Coverage(data_file=None, include=[os.path.join(SRC, "factorysimpy", "base", "*"),
+                                                              os.path.join(SRC, "factorysimpy", "edges", "*")])
+            covm.start()
+        except Exception:
+            covm = None
+    try:
+        gen, st = generate(family, tier, seed)
+    finally:
+        if covm is not None:
+            try:
+                covm.stop()
+                r.linecov = {}
+                for f in covm.get_data().measured_files():
+                    _, stmts, _, missing, _ = covm.analysis2(f)
+                    if len(stmts) - len(missing) > 5:
+                        r.linecov[os.path.relpath(f, SRC)] = dict(statements=len(stmts), executed=len(stmts) - len(missing),
+                                                                  percent=round(100.0 * (len(stmts) - len(missing)) / max(1, len(stmts)), 1))
+            except Exception:
+                pass
     r.traces.extend(gen); r.stats = st
     try:
         r.model = run_model([(h, ops) for h, ops, _ in r.traces])
